@@ -230,3 +230,17 @@ Definition cmd_keys (c : cmd) : list bytes :=
 Definition keys_nonempty (cmds : list (N * list bytes)) : bool :=
   forallb (fun c => forallb (fun k => negb (is_empty k)) (cmd_keys (decode (fst c) (snd c)))) cmds.
 
+
+(** What the correspondence check compares: the wire form of the reference's
+    replies against the observed bytes. *)
+Fixpoint replies_eqb (a b : list bytes) : bool :=
+  match a, b with
+  | [], [] => true
+  | x :: a', y :: b' => bytes_eqb x y && replies_eqb a' b'
+  | _, _ => false
+  end.
+
+Definition conforms (cmds : list (N * list bytes)) (observed : list bytes) : Prop :=
+  map encode_reply (snd (spec_run empty_map cmds)) = observed.
+Definition conforms_b (cmds : list (N * list bytes)) (observed : list bytes) : bool :=
+  replies_eqb (map encode_reply (snd (spec_run empty_map cmds))) observed.
